@@ -811,6 +811,56 @@ pub fn c20(tier: Tier) -> i32 {
     // the real store + real Helper path
     let helper_checked = crate::driver::c20_store_helper_roundtrip(&w, &[b1.clone(), b2.clone(), b3.clone(), bmax.clone()], &mut rep);
     rt += helper_checked;
+    // through the real Core's own store path: a real node processes the blocks (Core::store_block),
+    // then serves them through its real Helper on request
+    {
+        use crate::proto::node::LiveNode;
+        use crate::proto::universe::{Ev, Universe};
+        use std::sync::Arc;
+        let wa = Arc::new(World::new(&[1, 1, 1, 1]));
+        let uni = Universe::new(wa.clone(), true);
+        let t = 0usize;
+        let (mut ln, _) = LiveNode::boot(&wa, &uni, t);
+        let others = [1usize, 2, 3];
+        let c1 = wa.block(1, 1, QC::genesis(), None, vec![]);
+        let c2 = wa.block(2, 2, wa.qc(&c1, &others), None, vec![]);
+        let c3 = wa.block(3, 3, wa.qc(&c2, &others), None, vec![]);
+        let c5 = wa.block(1, 5, wa.qc(&c3, &others), Some(wa.tc(4, &[(1, 3), (2, 3), (3, 3)])), vec![]);
+        for b in [&c1, &c2, &c3, &c5] {
+            let id = uni.intern(ConsensusMessage::Propose((*b).clone()));
+            let _ = ln.apply(&uni, Ev::Deliver(id));
+        }
+        for b in [&c1, &c2, &c3, &c5] {
+            rt += 1;
+            let id = uni.intern(ConsensusMessage::SyncRequest(b.digest(), wa.name(2)));
+            let res = ln.apply(&uni, Ev::Deliver(id));
+            let mut ok = false;
+            for (m, dst) in &res.out {
+                if *dst == 2 {
+                    if let ConsensusMessage::Propose(y) = &uni.msg(*m).msg {
+                        if y.digest() == b.digest() {
+                            ok = y.verify(&wa.committee).is_ok() && wa.ref_valid_block(y);
+                            if !ok {
+                                rep.violation(
+                                    "roundtrip:core-store".into(),
+                                    format!("block of round {} processed and stored by a real node no longer verifies when served back by its helper ({:?})", b.round, y.verify(&wa.committee).err().map(|e| e.to_string())),
+                                    json!({"engine":"enum","check":"c20-core-store","round":b.round}),
+                                );
+                                ok = true;
+                            }
+                        }
+                    }
+                }
+            }
+            if !ok {
+                rep.violation(
+                    "roundtrip:core-store-missing".into(),
+                    format!("block of round {} processed by a real node was not served back with the same digest on request", b.round),
+                    json!({"engine":"enum","check":"c20-core-store","round":b.round}),
+                );
+            }
+        }
+    }
     evals += rt;
     rep.sample(json!({"case":"roundtrip","messages":msgs.len(),"from_proto_run":n_extra,"through_real_store_and_helper":helper_checked}));
     rep.set("evaluations", json!(evals));
